@@ -387,6 +387,55 @@ def run_responses(ctx):
             ctx.violation("C15:implicit-response:wrong-values", "implicit response parsed to different token fields", {"url": url})
 
 
+def run_client_responses(ctx):
+    """The three client classes given an authorization / implicit response: the state they compare it with is the one passed to the
+    call or, failing that, the one the client object holds -- for both kinds of response."""
+    rng = ctx.rng
+    n = 60 if ctx.tier == "quick" else 1500
+    for i in range(n):
+        state = rng.choice(["st", "a+b", "a b", "S"])
+        other = rng.choice([state + "x", state.upper() if state.upper() != state else state.lower(), state.replace("+", " ") if "+" in state else "zz", "other"])
+        held, per_call = rng.choice([(state, None), (other, None), (None, state), (None, other), (other, state), (state, other), (None, None), ("", other)])
+        implicit = rng.random() < 0.5
+        if implicit:
+            url = U.add_params_to_uri("https://c.example/cb", [("access_token", "AT"), ("token_type", "bearer"), ("expires_in", "3600"), ("state", state)], fragment=True)
+        else:
+            url = U.add_params_to_uri("https://c.example/cb", [("code", "c0de"), ("state", state)])
+        effective = per_call or held
+        want = "mismatch" if (effective and effective != state) else "ok"
+        for kind in ("requests", "httpx", "async"):
+            cap = Capture()
+            kw = dict(client_id="cid", client_secret="sec", token_endpoint_auth_method="client_secret_post")
+            if held is not None:
+                kw["state"] = held
+            call_kw = {"authorization_response": url}
+            if per_call is not None:
+                call_kw["state"] = per_call
+            try:
+                if kind == "requests":
+                    requests_client(cap, **kw).fetch_token(TOKEN_URL, **call_kw)
+                elif kind == "httpx":
+                    HttpxOAuth2Client(transport=httpx.MockTransport(httpx_handler(cap)), **kw).fetch_token(TOKEN_URL, **call_kw)
+                else:
+                    async def go():
+                        import inspect
+                        r = AsyncOAuth2Client(transport=httpx.MockTransport(httpx_handler(cap)), **kw).fetch_token(TOKEN_URL, **call_kw)
+                        if inspect.isawaitable(r):      # the implicit branch answers without a request, hence without a coroutine
+                            await r
+                    asyncio.run(go())
+                got = "ok"
+            except Exception as e:  # noqa: BLE001
+                got = "mismatch" if "mismatching_state" in (getattr(e, "error", "") or str(e)) or type(e).__name__ == "MismatchingStateException" else "error:" + type(e).__name__
+            case = {"client": kind, "response": "implicit" if implicit else "code", "returned_state": state, "state_on_client": held, "state_in_call": per_call}
+            ctx.case(case, ("client-response", kind, implicit, state, held, per_call), "client-response:%s:%s" % ("implicit" if implicit else "code", got))
+            ctx.compare("client_state_check", case, got, want)
+            if want == "mismatch" and got == "ok":
+                ctx.violation("C15:client:%s-response:mismatch-not-reported" % ("implicit" if implicit else "code"),
+                              "a %s response whose state differs from the one the client expects was accepted by fetch_token" % ("implicit" if implicit else "code"), case)
+            if got == "ok" and not implicit and not cap.reqs:
+                ctx.violation("C15:client:code-response:no-token-request", "fetch_token accepted a code response without sending a token request", case)
+
+
 def run(ctx):
     ctx.rule = ("codecs: generated parameter lists over text with spaces, + & = # ? ; / quotes, non-ASCII and % x existing "
                 "query/fragment text x URL shapes, plus hostile url_decode input; clients: generated scenarios (authorize, "
@@ -397,6 +446,7 @@ def run(ctx):
     run_codecs(ctx)
     run_clients(ctx)
     run_responses(ctx)
+    run_client_responses(ctx)
 
 
 def run_case(ctx, case):
